@@ -317,7 +317,7 @@ package anchoring
 //@ ifacemethod FunctionBase.BlankParams
 //@   ensures anchMadeBy(result, self)
 //@ func parseFuncParams
-//@   property C19 C09
+//@   property C19 C09 C20
 //@   ensures [the_functions_own_parameter_object] anchMadeBy(result, fun)
 
 // ---- no state shared between requests (C09): every request decodes its function parameters into a new object
@@ -529,6 +529,6 @@ package anchoring
 //@   loop 1 invariant [so_far] fresh(existing) && len(existing) == len(a.anchoringAppliers) && forall k int :: 0 <= k && k < iter ==> existing[k] == applierName(a.anchoringAppliers[k])
 
 //@ func (*NewCriterionAnchoringApplier).BlankParams
-//@   property C09 C19
+//@   property C09 C19 C07
 //@   nopanic
 //@   ensures [new_object_each_time] typeis(result, *utils.Map) && fresh(result.(*utils.Map))
